@@ -3,33 +3,32 @@ package main
 import (
 	"fmt"
 
+	"cosmossdk.io/math"
 	sdk "github.com/cosmos/cosmos-sdk/types"
-	perptypes "github.com/elys-network/elys/x/perpetual/types"
+	ammtypes "github.com/elys-network/elys/x/amm/types"
 
 	"verifharness/chain"
-	"verifharness/run"
-	_ "verifharness/scen"
 )
 
-type probe struct{}
-
-func (probe) PostTx(w *chain.World, ctx sdk.Context, tx *chain.TxRecord, success bool) {
-	if ctx.BlockHeight() != 98 || tx == nil {
-		return
-	}
-	if mo, ok := tx.Msgs[0].(*perptypes.MsgOpen); ok {
-		fmt.Printf("OPEN success=%v %v\n", success, mo)
-		for _, m := range w.App.PerpetualKeeper.GetAllMTPsForAddress(ctx, tx.Signer.Addr) {
-			amm, _ := w.App.PerpetualKeeper.GetAmmPool(ctx, m.AmmPoolId)
-			h, _ := w.App.PerpetualKeeper.GetMTPHealth(ctx, *m, amm, "uusdc")
-			fmt.Printf("  mtp %d %s custody=%s liab=%s coll=%s stored=%s recomputed=%s unpaid=%s\n", m.Id, m.Position, m.Custody, m.Liabilities, m.Collateral, m.MtpHealth, h, m.BorrowInterestUnpaidLiability)
+func main() {
+	for _, frac := range []int64{50, 80, 95, 99} {
+		for _, ratio := range []int64{1, 3} {
+			w := chain.NewWorld(chain.Config{NUsers: 6})
+			w.Prologue(chain.PrologueCfg{Scale: 1e12})
+			u := w.Users
+			w.Step(4000)
+			ctx := w.ReadCtx()
+			cm := w.App.CommitmentKeeper.GetCommitments(ctx, u[0].Addr)
+			have := cm.GetCommittedAmountForDenom("amm/pool/1")
+			sw := &ammtypes.MsgSwapExactAmountIn{Sender: u[3].S(), Routes: []ammtypes.SwapAmountInRoute{{PoolId: 1, TokenOutDenom: "uatom"}}, TokenIn: chain.Coin("uusdc", 1e11*ratio), TokenOutMinAmount: math.NewInt(1)}
+			ex := &ammtypes.MsgExitPool{Sender: u[0].S(), PoolId: 1, ShareAmountIn: have.MulRaw(frac).QuoRaw(100), MinAmountsOut: sdk.NewCoins()}
+			b := w.Step(5, w.Tx(u[3], sw), w.Tx(u[0], ex))
+			fmt.Printf("frac=%d ratio=%d err=%q", frac, ratio, b.Err)
+			if b.Res != nil {
+				fmt.Printf(" swap=%d exit=%d %s", b.Txs[1].Result.Code, b.Txs[2].Result.Code, b.Txs[2].Result.Log)
+			}
+			fmt.Println()
+			w.Close()
 		}
 	}
-}
-
-func main() {
-	j := run.Job{Prop: "C10", Scenario: "forced", Index: 9, Seed: 1, Tier: "quick"}
-	run.AttachHook = func(w *chain.World) { w.AddProbe(probe{}) }
-	r := run.RunJob(j)
-	fmt.Println(r.Extra, r.NViolations)
 }
